@@ -20,7 +20,7 @@ from props.c03 import mk_value, A, B, U, Ob, NUMERIC, FNUM, TEXT, OBJECTS, TUPLE
 
 import numpy as np
 from traits.api import (HasTraits, Int, Float, Complex, Str, Bytes, Bool, CInt, CFloat, Range, Enum, Map, Tuple, Instance,
-                        Type, Callable, Either, Union, TraitError, String, List, Any)
+                        Type, Callable, Either, Union, TraitError, String, List, Any, Trait)
 import traits.trait_types as tt
 
 LEVEL = "model_checking"
@@ -268,6 +268,19 @@ def dom_map(mapping):
     return dom
 
 
+MAPPING2 = {"yes": 1, "abc": 0}
+
+
+def dom_map_compound(ex, st, v):
+    """Trait('yes', {'yes': 1, 'abc': 0}, List(Int)): a key of the mapping, or a list of ints (unhashable, so it can never be
+    a key; its shadow value is the list itself)"""
+    if isinstance(v, str) and v in MAPPING2:          # membership is by == / hash: str subclasses equal to a key are keys
+        return ACCEPT, v
+    if type(v) is list and all(type(i) is int for i in v):
+        return ACCEPT, v
+    return (REJECT,)
+
+
 # ---- configurations ---------------------------------------------------------------------------------------------
 def st_none(ex):
     return {}
@@ -347,6 +360,8 @@ CONFIGS = {
     "EnumMixed": (simple(lambda: Enum(None, "abc", 2.5, 0, (1, 2))), dom_enum((None, "abc", 2.5, 0, (1, 2))),
                   ["none", "bool", "int", "float", "floatsub", "str", "strsub", "tuple_bi", "object", "list"]),
     "Map": (simple(lambda: Map(dict(MAPPING))), dom_map(MAPPING), ["none", "bool", "int", "float", "str", "object", "list"]),
+    "MapCompound": (simple(lambda: Trait("yes", dict(MAPPING2), List(Int))), dom_map_compound,
+                    ["none", "int", "str", "strsub", "list", "list_bad", "object"]),
     "TupleIntFloat": (simple(lambda: Tuple(Int, Float)), dom_tuple_int_float, ["tuple_if", "tuple_fi", "tuple_bi", "tuple_1", "tuple_3", "none", "int", "list"]),
     "InstanceA": (simple(lambda: Instance(A)), dom_instance(A, True), ["none"] + OBJECTS + ["int"]),
     "InstanceA_nonone": (simple(lambda: Instance(A, allow_none=False)), dom_instance(A, False), ["none", "instA", "instB", "instU", "object"]),
@@ -457,12 +472,20 @@ def make_harness(cfgname, kind):
         after = dict(o.__dict__)
         if rc == 0:
             ex.check(d[0] == ACCEPT, "accepted value lies in the declared domain")
-            if d[0] == ACCEPT:
+            if d[0] == ACCEPT and cfgname == "MapCompound" and type(d[1]) is list:
+                from traits.trait_list_object import TraitListObject
+                ex.check(isinstance(after.get("x"), TraitListObject) and list(after["x"]) == d[1],
+                         "stored value is the documented conversion (a validating list with the same items)")
+            elif d[0] == ACCEPT:
                 ex.check("x" in after and c03.same_result(after["x"], d[1]) is not False and
                          _cond(c03.same_result(after["x"], d[1]), ex),
                          "stored value is the documented conversion (same exact type, equal payload)")
             ex.check(after.get("other", before.get("other")) == before.get("other", after.get("other")),
                      "other attributes untouched")
+            if cfgname == "MapCompound" and d[0] == ACCEPT:
+                want = MAPPING2[d[1]] if isinstance(d[1], str) else d[1]
+                ex.check("x_" in after and after["x_"] == want, "mapped shadow attribute holds the mapped value (the value itself "
+                                                                "for the unmapped alternative)")
             if cfgname == "Map" and d[0] == ACCEPT:
                 want = pymodel.ModelDict(MAPPING)[d[1]]
                 ex.check("x_" in after and after["x_"] is want or after.get("x_") == want,
@@ -505,9 +528,105 @@ def _cond(c, ex):
     return c if ex.sym else bool(z3.is_true(z3.simplify(c)))
 
 
+# ---- dynamic Range (bounds / default named by other traits): histories with symbolic integers -----------------------------
+def dynrange_harness(k, with_default):
+    """The real BaseRange._get / _set / _validate / _set_value run natively on z3 Int proxies (the compiled property machinery
+    only forwards the pointers); the bounds and the default come from Any traits, so they can hold proxies as well.
+    Reference model (documented behaviour): an accepted assignment is what later reads return, clamped to the CURRENT bounds;
+    until the first assignment or read the value follows the default expression; a rejected assignment changes nothing."""
+    from traits.api import Any, TraitError
+
+    def harness(ex):
+        class Model(HasTraits):
+            lo = Any(0)
+            hi = Any(10)
+            preset = Any(3)
+            level = Range(low="lo", high="hi", value="preset") if with_default else Range(low="lo", high="hi")
+
+        m = Model()
+        events = []
+        m.on_trait_change(lambda obj, n_, old, new: events.append((old, new)), "level")
+        ref = {"lo": 0, "hi": 10, "preset": 3, "cache": None}
+        dflt = (lambda: ref["preset"]) if with_default else (lambda: ref["lo"])
+        trace = []
+
+        def clamp(v):
+            if bool(v < ref["lo"]):
+                return ref["lo"]
+            if bool(v > ref["hi"]):
+                return ref["hi"]
+            return v
+
+        env = cenv.python_side_env() if ex.sym else _Null()
+        with env, (_InfoStub() if ex.sym else _Null()):
+            for step in range(k):
+                op = ex.choice("op%d" % step, 5)
+                if op == 0:
+                    v = ex.int("v%d" % step)
+                    inside = bool(ref["lo"] <= v) and bool(v <= ref["hi"])
+                    del events[:]
+                    before = dict(m.__dict__)
+                    exc = None
+                    try:
+                        m.level = v
+                    except TraitError as e:
+                        exc = e
+                    trace.append("level=")
+                    if inside:
+                        ex.check(exc is None, "no spurious rejection of a value inside the current bounds")
+                        old = ref["cache"] if ref["cache"] is not None else dflt()
+                        ref["cache"] = v
+                        if exc is None:
+                            ex.check(len(events) == (1 if bool(v != old) else 0), "one change notification iff the value changed")
+                    else:
+                        ex.check(exc is not None and "'level'" in str(exc), "a value outside the current bounds is rejected with a "
+                                                                             "TraitError naming the attribute")
+                        after = dict(m.__dict__)
+                        # (reading the bounds for the error message may materialise their defaults: not a change)
+                        ex.check(all(k_ in after and after[k_] is v_ for k_, v_ in before.items())
+                                 and all(k_ in before or k_ in ("lo", "hi", "preset") for k_ in after),
+                                 "rejected assignment leaves every attribute exactly as it was")
+                        ex.check(events == [], "rejected assignment notifies nobody")
+                elif op in (1, 2, 3):
+                    name = {1: "preset", 2: "lo", 3: "hi"}[op]
+                    if name == "preset" and not with_default:
+                        continue
+                    v = ex.int("v%d" % step)
+                    new = dict(ref, **{name: v})
+                    ex.assume(new["lo"] <= new["hi"])
+                    if name == "preset":
+                        ex.assume(new["lo"] <= v)
+                        ex.assume(v <= new["hi"])
+                    setattr(m, name, v)
+                    ref[name] = v
+                    trace.append(name + "=")
+                else:
+                    got = m.level
+                    if ref["cache"] is None:
+                        ref["cache"] = dflt()          # the default is fixed by the first read
+                    want = clamp(ref["cache"])
+                    ex.check(bool(got == want), "a read returns the last accepted assignment (else the default), clamped to the current bounds")
+                    ex.check(bool(ref["lo"] <= got) and bool(got <= ref["hi"]), "no value outside the current bounds is ever readable")
+                    trace.append("read")
+            got = m.level
+            if ref["cache"] is None:
+                ref["cache"] = dflt()
+            ex.check(bool(got == clamp(ref["cache"])), "a read returns the last accepted assignment (else the default), clamped to the current bounds")
+        return {"trace": trace}
+
+    return harness
+
+
 def obligations(tier, build):
     cenv.load_program(build)
     obs = []
+    K = 3 if tier == "quick" else 4
+    for with_default in (True, False):
+        obs.append(Obligation("DynamicRange/%s/k=%d" % ("value=name" if with_default else "default=low", K), dynrange_harness(K, with_default),
+                              stubs=STUBS, bounds={"history length": K, "operations": ["assign", "change default", "change low", "change high", "read"],
+                                                   "all integers": "unbounded Int", "bounds": "low <= high assumed"},
+                              assumes=["low <= high after every bound change; the default-supplying trait stays inside the bounds"],
+                              leverage="every assigned value, bound and default (z3 Int)", max_paths=50000, path_wall_s=120))
     for cfg, (mk, dom, kinds) in CONFIGS.items():
         for kind in kinds:
             obs.append(Obligation("%s/%s" % (cfg, kind), make_harness(cfg, kind), stubs=STUBS,
